@@ -65,3 +65,19 @@ Example C02_example :
   walk current current_consts c is_email (real_actions current_consts c None) (MQ false false MNil []) (flt "x" "y" "a@b.co") =
   walk current current_consts c is_email (real_actions current_consts c None) (MQ false false MNil []) (flt "a much longer secret ""with"" quotes" "x" "zz@example.org").
 Proof. vm_compute. reflexivity. Qed.
+
+(* The similarity relation of the theorems above lets two inputs differ only at positions that lie
+   below no key classified as not redactable. That reading is only as good as the tables: the
+   regenerated tables classify nothing as not redactable outside the sanctioned list (operational
+   parameters, keywords, field paths, namespaces, structural keys) - re-checked on every run. A
+   table entry that starts to keep literals under an ordinary name breaks this obligation. *)
+Theorem C02_tables_ok : tables_ok_exempt current = true.
+Proof. vm_compute. reflexivity. Qed.
+Print Assumptions C02_tables_ok.
+
+(* no bare-word entry at the top level of the tables that are consulted for every key: a user field is never
+   exempted because of its NAME (obligation on the regenerated tables) *)
+From Spec Require TablesOK.
+Theorem C02_no_bare_word_exemption : TablesOK.tables_ok_bare current = true.
+Proof. vm_compute. reflexivity. Qed.
+Print Assumptions C02_no_bare_word_exemption.
